@@ -338,7 +338,7 @@ package common
 // C08: the range check on multi-asset quantities held as arbitrary-precision integers (transaction
 // outputs). It returns nil only if every quantity that is present is a natural number below 2^64 -
 // for every policy and asset name, whatever the iteration order of the two maps.
-//@ func (m *MultiAsset[MultiAssetTypeOutput]) CheckQuantityRange() (err)
+//@ func (m *MultiAsset[*math/big.Int]) CheckQuantityRange() (err)
 //@   props C08
 //@   pure
 //@   ensures range: err == nil && m != nil ==> forall p Blake2b224, a cbor.ByteString :: p in m.data && a in m.data[p] && m.data[p][a] != nil ==>
@@ -346,3 +346,88 @@ package common
 //@   loop 0 invariant forall p Blake2b224, a cbor.ByteString :: visited[p] && p in m.data && a in m.data[p] && m.data[p][a] != nil ==>
 //@       0 <= val(m.data[p][a]) && val(m.data[p][a]) < 18446744073709551616
 //@   loop 1 invariant forall a cbor.ByteString :: visited[a] && a in assets && assets[a] != nil ==> 0 <= val(assets[a]) && val(assets[a]) < 18446744073709551616
+
+// C06: quantities held as arbitrary-precision integers; an absent (nil) quantity counts as zero.
+//@ spec func q(a *math/big.Int) Int = ite(a == nil, 0, val(a))
+//@ func addAmounts[*math/big.Int](a, b) (r)
+//@   props C06
+//@   ensures sum: r != nil && val(r) == q(a) + q(b)
+//@   ensures fresh: r != a && r != b
+//@ func amountsEqual[*math/big.Int](a, b) (r)
+//@   props C06
+//@   pure
+//@   ensures def: r <==> q(a) == q(b)
+//@ func amountIsZero[*math/big.Int](a) (r)
+//@   props C06
+//@   pure
+//@   ensures def: r <==> q(a) == 0
+
+// C06: the abstract view of a multi-asset value: the quantity held for (policy, asset name), zero when
+// the policy or the name is absent or the stored quantity is nil.
+//@ spec func qty(m *MultiAsset[*math/big.Int], p Blake2b224, a cbor.ByteString) Int = ite(m.data != nil && p in m.data && a in m.data[p], q(m.data[p][a]), 0)
+//@ func (m *MultiAsset[*math/big.Int]) Asset(policyId, assetName) (r)
+//@   props C06
+//@   pure
+//@   requires nonnil: m != nil
+//@   ensures view: forall a cbor.ByteString :: seq(a.ByteString) == seq(assetName) ==> q(r) == qty(m, policyId, a)
+
+// C02: the hand-written byte-level fast path for text-keyed metadata maps. No index or slice
+// expression can panic for any input and offset; a length or count read from the input is at most
+// 65535 or at most the input length (so that the capacity reserved for the pairs is proportional to the
+// input, not to a number the input merely claims); a text string is returned only if it lies entirely inside the input.
+//@ func decodeCBORDefiniteLength(b, offset, expectedType) (n, next, ok)
+//@   props C02
+//@   pure
+//@   requires off: offset >= 0
+//@   ensures bounded: ok ==> 0 <= n && (n <= 65535 || n <= len(b)) && next > offset && next <= len(b)
+//@   ensures failed: !ok ==> n == 0
+//@ func decodeCBORTextString(b, offset) (s, next, ok)
+//@   props C02
+//@   pure
+//@   requires off: offset >= 0
+//@   ensures inside: ok ==> next > offset && next <= len(b)
+//@ func decodeMapTextTextFast(b) (r, ok)
+//@   props C02
+//@   attr allocbound 65535 + len(b)
+//@   loop 0 invariant offset >= 0 && offset <= len(b)
+//@ func mapFirstKeyType(b) (r)
+//@   props C02
+//@   pure
+//@   loop 0 unroll 8
+//@ func decodeTag259Content(raw) (r, ok)
+//@   props C02
+//@ func decodeAuxiliaryMetadataOnly(content) (r, ok)
+//@   props C02
+//@ func decodeCBORItemEnd(b, offset) (end, ok)
+//@   props C02
+//@   requires off: offset >= 0
+//@   ensures inside: ok ==> end > offset && end <= len(b)
+
+// C02 / C07: the block offset extractors index and slice the block bytes with offsets computed from
+// container headers and decoder positions; none of those expressions can panic, for any input.
+//@ func cborArrayInfo(data) (count, hdr, indef)
+//@   props C02
+//@   pure
+//@   ensures header: (count >= 0 || indef) ==> hdr >= 1 && hdr <= 9 && int(hdr) <= len(data)
+//@   ensures count: count >= -1 && count <= 2147483647
+//@ func cborMapInfo(data) (count, hdr, indef)
+//@   props C02
+//@   pure
+//@   ensures header: (count >= 0 || indef) ==> hdr >= 1 && hdr <= 9 && int(hdr) <= len(data)
+//@   ensures count: count >= -1 && count <= 2147483647
+//@ func extractOutputOffsets(bodyData, bodyOffset, loc) ()
+//@   props C02
+//@ func extractWitnessComponentOffsets(witnessData, baseOffset, loc) ()
+//@   props C02
+//@ func extractDatumOffsets(datumArrayData, baseOffset, result) ()
+//@   props C02
+//@ func extractRedeemerMapOffsets(redeemerData, baseOffset, result) ()
+//@   props C02
+//@ func extractRedeemerArrayOffsets(redeemerData, baseOffset, result) ()
+//@   props C02
+//@ func extractScriptArrayOffsets(scriptArrayData, baseOffset, scriptType, result) ()
+//@   props C02
+//@ func extractMetadataOffsets(mapData, baseOffset, result) (err)
+//@   props C02
+//@ func extractByronOutputOffsets(bodyData, bodyOffset, loc) ()
+//@   props C02
